@@ -28,8 +28,9 @@ impl TryFrom<f64> for HFloat {
 
     fn try_from(value: f64) -> Result<Self, Self::Error> {
         let hv = f16::from_f64(value);
-        let error = (hv.to_f64() - value).abs();
-        if error < ALLOWED_ERROR {
+        // The immediate form must reproduce the literal exactly: an absolute tolerance
+        // silently changed small constants (0.00001 was executed as 1.0013580322265625e-5).
+        if hv.to_f64() == value {
             Ok(Self(f16::from_f64(value)))
         } else {
             Err(())
